@@ -732,8 +732,10 @@ def _mk_stft(rng, kind):
             elif r < 0.18:
                 items.append(["ola_size", size])
                 items.append(["ola_hop", rng.randint(1, size)])
-            elif r < 0.22:
-                items.append(["ola_" + rng.choice(["foo", "ola_wnd", "siz", ""]), rng.randint(0, 3)])
+            elif r < 0.30:
+                items.append(["ola_" + rng.choice(["foo", "ola_wnd", "siz", "", "latency", "length", "offset", "align", "_x",
+                                                   "ola_", "a", "all", "olaola_hop", "o_l_a", "normalise", "Size", "wnd_"]),
+                              rng.randint(0, 3)])
     if kind == "bad":
         b = rng.choice(["unknown", "unknown2", "no_size", "hop_gt", "hop_none", "ola_none_opt", "wa_size", "wa_scalar", "wa_empty"])
         if b == "unknown":
